@@ -1,6 +1,7 @@
 package flaggedproducer
 
 import (
+	"fmt"
 	"sync"
 	"sync/atomic"
 
@@ -41,6 +42,14 @@ func (f *Producer) OpenDB(name string) (kvdb.Store, error) {
 		DropFn: func() {
 			f.mu.Lock()
 			delete(f.dbs, name)
+			// mark every other open DB dirty before the drop becomes durable: a crash right after
+			// the drop must not look like the last clean flush, in which this DB still existed
+			for otherName, other := range f.dbs {
+				if err := other.modified(); err != nil {
+					f.mu.Unlock()
+					panic(fmt.Errorf("failed to mark DB %s dirty before dropping DB %s: %v", otherName, name, err))
+				}
+			}
 			f.mu.Unlock()
 			_ = db.Close()
 			db.Drop()
